@@ -6,9 +6,11 @@
 package main
 
 import (
+	"errors"
 	"fmt"
 	"os"
 	"reflect"
+	"sort"
 	"strconv"
 	"strings"
 
@@ -23,7 +25,15 @@ const c11M = 2147483647
 // ---- processors ------------------------------------------------------------------------------
 
 // execution log shared by all processors of one graph: ids in order of completed Process() calls
-type c11Rec struct{ log []int }
+// errs counts the Process() calls that returned an error since the counter was last collected;
+// lastErr[id] = the last Process() of node id returned an error
+type c11Rec struct {
+	log     []int
+	errs    int
+	lastErr map[int]bool
+}
+
+var errC11Process = errors.New("c11: processor failed")
 
 type c11In = nodes.NodeOutput[int]
 
@@ -46,6 +56,18 @@ func c11Process(id, salt int, rec *c11Rec, sc []c11In, ar [][]c11In) (int, error
 		}
 	}
 	rec.log = append(rec.log, id)
+	// "failing" processors (odd salt): the value is returned NEXT TO an error whenever it is
+	// divisible by 3.  process() stores the value, bumps the version and nothing reads sn.err, so
+	// the lines are the same as for a processor that never fails.
+	if rec.lastErr == nil {
+		rec.lastErr = map[int]bool{}
+	}
+	if salt%2 == 1 && h%3 == 0 {
+		rec.errs++
+		rec.lastErr[id] = true
+		return int(h), errC11Process
+	}
+	rec.lastErr[id] = false
 	return int(h), nil
 }
 
@@ -231,8 +253,16 @@ type c11Node struct {
 	cached func() int                  // stored value, read WITHOUT triggering evaluation
 	vn     *nodes.ValueNode[int]
 	pv     *parameter.Value[int]
+	// message family: composite parameters ('L' []int, 'T' c11AB, 'M' map[string]int) have no int
+	// output; they are read through readFn (= enc(Value())) and fed by apply (= ApplyMessage)
+	readFn func() int
+	apply  func([]byte) (bool, error)
+	comp   any // the *parameter.Value[...] of a composite parameter
 	// the harness's own bookkeeping of the current state of the node
-	pval int
+	cl   []int          // 'L'
+	cab  c11AB          // 'T'
+	cm   map[string]int // 'M'
+	pval int            // parameters: the (model) value; composite: enc of the value
 	salt int
 	sc   []int   // scalar ports, -1 = nil
 	ar   [][]int // array ports
@@ -590,6 +620,11 @@ type c11Case struct {
 	// results of the last `rd` (for notes and the harness's own sanity assertions)
 	lastV1, lastV2 int
 	lastX, lastY   []int
+	lastStatus     string
+	sawErr         bool
+	readBelowErr   bool
+	// message family: payloads of the "msg" ops (c11Op.b indexes this table)
+	msgs []c11Msg
 }
 
 // number of dependency paths below every node, summed: Outdated()/State() of the real code walks
@@ -778,6 +813,8 @@ func (o c11Op) String() string {
 		return fmt.Sprintf("si %d %d %d", o.a, o.b, o.d)
 	case "rd":
 		return fmt.Sprintf("rd %d", o.a)
+	case "msg":
+		panic("c11: msg ops are printed from the payload table")
 	}
 	return fmt.Sprintf("%s %d %d %d", o.kind, o.a, o.b, o.d)
 }
@@ -788,8 +825,12 @@ func (cs *c11Case) exec(o c11Op, ans *strings.Builder) (bool, int) {
 	n := cs.nd[o.a]
 	var v1, v2 int
 	var x, y []int
+	rejected := false
 	ok := c11Guard(func() {
 		switch o.kind {
+		case "msg":
+			_, err := n.apply([]byte(cs.msgs[o.b].json))
+			rejected = err != nil
 		case "sp":
 			if n.kind == 'P' {
 				n.vn.Set(o.b)
@@ -818,17 +859,28 @@ func (cs *c11Case) exec(o c11Op, ans *strings.Builder) (bool, int) {
 			if (n.kind == 'S' || n.kind == 'K') && !cs.fixed {
 				h = cs.c.Rng.Intn(len(n.outs))
 			}
+			read := n.readFn
+			if read == nil {
+				read = n.outs[h].Value
+			}
 			cs.rec.log = nil
-			v1 = n.outs[h].Value()
+			v1 = read()
 			x = cs.rec.log
 			cs.rec.log = nil
-			v2 = n.outs[h].Value()
+			v2 = read()
 			y = cs.rec.log
 			cs.rec.log = nil
 		}
 	})
-	if ok {
+	cs.lastStatus = "ok"
+	if ok && rejected {
+		// a message the decoder refused: reported `rej`, the bookkeeping stays as it is
+		cs.lastStatus = "rej"
+		ans.WriteString(" rej")
+	} else if ok {
 		switch o.kind {
+		case "msg":
+			cs.msgs[o.b].accept(n)
 		case "sp":
 			n.pval = o.b
 		case "si":
@@ -840,6 +892,7 @@ func (cs *c11Case) exec(o c11Op, ans *strings.Builder) (bool, int) {
 		}
 		ans.WriteString(" ok")
 	} else {
+		cs.lastStatus = "panic"
 		ans.WriteString(" panic")
 		x, y = nil, nil
 	}
@@ -847,11 +900,38 @@ func (cs *c11Case) exec(o c11Op, ans *strings.Builder) (bool, int) {
 		fmt.Fprintf(ans, " r %d %d", v1, v2)
 	}
 	cs.lastV1, cs.lastV2, cs.lastX, cs.lastY = v1, v2, x, y
+	// failing processors: executions that returned an error; reads strictly downstream of a node
+	// whose last Process() returned an error (the second read of the `rd` finds it in that state)
+	if cs.rec.errs > 0 {
+		cs.c.notes["err.process-returned-error"] += cs.rec.errs
+		cs.rec.errs = 0
+		cs.sawErr = true
+	}
+	if o.kind == "rd" && ok && cs.sawErr {
+		sc, ar := cs.wiring()
+		for u, failed := range cs.rec.lastErr {
+			if failed && u != o.a && c11Reaches(sc, ar, o.a, u) {
+				cs.c.Note("err.second-read-below-failed-node")
+				cs.readBelowErr = true
+				break
+			}
+		}
+	}
 	cs.observe(ans)
 	c11Ids(ans, "x", x)
 	c11Ids(ans, "y", y)
 	ans.WriteString(" |")
-	return ok, len(x)
+	return ok && !rejected, len(x)
+}
+
+// errNotes: per-history notes of the failing-processor family
+func (cs *c11Case) errNotes() {
+	if cs.sawErr {
+		cs.c.Note("err.graphs-with-failing-node")
+	}
+	if cs.readBelowErr {
+		cs.c.Note("err.graphs-with-read-below-failed-node")
+	}
 }
 
 func (cs *c11Case) freshVal() int {
@@ -1444,6 +1524,7 @@ func c11History(c *Ctx, deporder bool) {
 	if len(ops) > 0 {
 		req.WriteString(" " + strings.Join(ops, " "))
 	}
+	cs.errNotes()
 	q, a := req.String(), strings.TrimPrefix(ans.String(), " ")
 	c.Emit("c11.hist", q, a)
 	c.Emit("c11.holds.fresh", q+" @ "+a, "true")
@@ -1619,8 +1700,10 @@ func c11SkipBuild(c *Ctx, fixed bool, desc []c11SkipNode) (*c11Case, string) {
 func (cs *c11Case) skipSpec(i int) int {
 	n := cs.nd[i]
 	switch n.kind {
-	case 'P', 'Q':
+	case 'P', 'Q', 'L', 'T', 'M':
 		return n.pval
+	case 'E':
+		return cs.skipSpec(n.sc[0])
 	case 'K':
 		x := cs.skipSpec(n.sc[0])
 		if x > 0 {
@@ -1757,6 +1840,7 @@ func c11SkipWitnesses(c *Ctx) {
 			cs.skipExec(o, &ans, &ops)
 		}
 		c.Note("skip.witness." + w.name)
+		cs.errNotes()
 		c11SkipEmit(c, true, header, ops, &ans)
 	}
 }
@@ -1886,7 +1970,598 @@ func c11SkipRandom(c *Ctx) {
 			cs.skipExec(c11Op{kind: "rd", a: r.Intn(N)}, &ans, &ops)
 		}
 	}
+	cs.errNotes()
 	c11SkipEmit(c, false, header, ops, &ans)
+}
+
+// ---- message family: parameter.Value[T].ApplyMessage with composite T, rejected messages -------
+
+type c11AB struct {
+	A int
+	B int
+}
+
+// payload of a "msg" op: the protocol text of the op, the JSON sent, and what an ACCEPTED message
+// does to the bookkeeping (nil for messages that must be rejected)
+type c11Msg struct {
+	txt    string
+	json   string
+	accept func(n *c11Node)
+}
+
+func c11EncList(l []int) int {
+	h := int64(7)
+	for _, e := range l {
+		h = (h*31 + 17 + int64(e)) % c11M
+	}
+	return int((h*31 + int64(len(l))) % c11M)
+}
+
+func c11EncAB(v c11AB) int {
+	h := int64(5)
+	h = (h*31 + 19 + int64(v.A)) % c11M
+	h = (h*31 + 23 + int64(v.B)) % c11M
+	return int(h)
+}
+
+func c11EncMap(m map[string]int) int {
+	h := int64(11)
+	for i := 0; i < 4; i++ {
+		if v, ok := m["k"+strconv.Itoa(i)]; ok {
+			h = (h*31 + 29 + int64(i)) % c11M
+			h = (h*31 + int64(v)) % c11M
+		}
+	}
+	return int((h*31 + int64(len(m))) % c11M)
+}
+
+// adapter processors: one port A of the composite type, Process() = enc(A.Value())
+type c11EL struct {
+	A   nodes.NodeOutput[[]int]
+	id  int
+	rec *c11Rec
+}
+type c11ET struct {
+	id  int
+	A   nodes.NodeOutput[c11AB]
+	rec *c11Rec
+}
+type c11EM struct {
+	rec *c11Rec
+	id  int
+	A   nodes.NodeOutput[map[string]int]
+}
+
+func (t c11EL) Process() (int, error) {
+	v := c11EncList(t.A.Value())
+	t.rec.log = append(t.rec.log, t.id)
+	return v, nil
+}
+func (t c11ET) Process() (int, error) {
+	v := c11EncAB(t.A.Value())
+	t.rec.log = append(t.rec.log, t.id)
+	return v, nil
+}
+func (t c11EM) Process() (int, error) {
+	v := c11EncMap(t.A.Value())
+	t.rec.log = append(t.rec.log, t.id)
+	return v, nil
+}
+
+func c11CompParam[T any](kind byte, i int, def T, enc func(T) int) *c11Node {
+	pv := &parameter.Value[T]{Name: "p" + strconv.Itoa(i), DefaultValue: def}
+	read := func() int { return enc(pv.Value()) }
+	return &c11Node{kind: kind, node: pv, comp: pv, cached: read, readFn: read, apply: pv.ApplyMessage, pval: enc(def)}
+}
+
+func c11MapTokens(m map[string]int) string {
+	var sb strings.Builder
+	fmt.Fprintf(&sb, "%d", len(m))
+	for i := 0; i < 4; i++ {
+		if v, ok := m["k"+strconv.Itoa(i)]; ok {
+			fmt.Fprintf(&sb, " %d %d", i, v)
+		}
+	}
+	return sb.String()
+}
+
+func c11Ints(l []int) string {
+	var sb strings.Builder
+	fmt.Fprintf(&sb, "%d", len(l))
+	for _, e := range l {
+		fmt.Fprintf(&sb, " %d", e)
+	}
+	return sb.String()
+}
+
+// one history of the message family
+func c11MsgHistory(c *Ctx) {
+	r := c.Rng
+	cs := &c11Case{c: c, rec: &c11Rec{}, fresh: 100}
+	var req strings.Builder
+	small := func() int { return 1 + r.Intn(99) }
+
+	// ---- parameters: 1-2 int parameters and 1-3 composite ones, in random order
+	kinds := []byte{'Q'}
+	if r.Intn(2) == 0 {
+		kinds = append(kinds, 'Q')
+	}
+	for k := 1 + r.Intn(3); k > 0; k-- {
+		kinds = append(kinds, []byte{'L', 'T', 'M'}[r.Intn(3)])
+	}
+	r.Shuffle(len(kinds), func(a, b int) { kinds[a], kinds[b] = kinds[b], kinds[a] })
+	var params, comps, ints []int // ints: nodes with an int output (sources of S nodes)
+	for i, k := range kinds {
+		var n *c11Node
+		switch k {
+		case 'Q':
+			v := small()
+			if r.Intn(10) == 0 {
+				v = 0
+			}
+			pv := &parameter.Value[int]{Name: "p" + strconv.Itoa(i), DefaultValue: v}
+			n = &c11Node{kind: 'Q', node: pv, pv: pv, pval: v, outs: []c11In{pv, pv.Out()}, apply: pv.ApplyMessage,
+				refs: []nodes.NodeOutputReference{pv, pv.Out(), pv.Outputs()[0].NodeOutput}, cached: func() int { return pv.Value() }}
+			fmt.Fprintf(&req, " Q %d", v)
+			ints = append(ints, i)
+		case 'L':
+			var l []int // nil default for the empty list half of the time, []int{} otherwise
+			if r.Intn(5) != 0 {
+				for k := 1 + r.Intn(4); k > 0; k-- {
+					l = append(l, small())
+				}
+			} else if r.Intn(2) == 0 {
+				l = []int{}
+			}
+			n = c11CompParam('L', i, l, c11EncList)
+			n.cl = l
+			fmt.Fprintf(&req, " QL %s", c11Ints(l))
+			comps = append(comps, i)
+		case 'T':
+			v := c11AB{small(), small()}
+			if r.Intn(8) == 0 {
+				v.B = 0
+			}
+			n = c11CompParam('T', i, v, c11EncAB)
+			n.cab = v
+			fmt.Fprintf(&req, " QS %d %d", v.A, v.B)
+			comps = append(comps, i)
+		default:
+			m := map[string]int{}
+			for j := 0; j < 4; j++ {
+				if r.Intn(5) < 3 {
+					m["k"+strconv.Itoa(j)] = small()
+				}
+			}
+			n = c11CompParam('M', i, m, c11EncMap)
+			n.cm = m
+			fmt.Fprintf(&req, " QM %s", c11MapTokens(m))
+			comps = append(comps, i)
+		}
+		params = append(params, i)
+		cs.nd = append(cs.nd, n)
+	}
+	// ---- adapters: one per composite parameter, now and then a second one on the same parameter
+	adapters := append([]int{}, comps...)
+	if r.Intn(4) == 0 {
+		adapters = append(adapters, comps[r.Intn(len(comps))])
+		c.Note("msg.shape.two-adapters-on-one-parameter")
+	}
+	for _, p := range adapters {
+		i := len(cs.nd)
+		useNew := r.Intn(2) == 0
+		direct := r.Intn(2) == 0 // the parameter itself, or its Out()
+		var n *c11Node
+		switch pv := cs.nd[p].comp.(type) {
+		case *parameter.Value[[]int]:
+			in := pv.Out()
+			if direct {
+				in = pv
+			}
+			n = c11Wrap(c11EL{A: in, id: i, rec: cs.rec}, useNew)
+		case *parameter.Value[c11AB]:
+			in := pv.Out()
+			if direct {
+				in = pv
+			}
+			n = c11Wrap(c11ET{A: in, id: i, rec: cs.rec}, useNew)
+		case *parameter.Value[map[string]int]:
+			in := pv.Out()
+			if direct {
+				in = pv
+			}
+			n = c11Wrap(c11EM{A: in, id: i, rec: cs.rec}, useNew)
+		default:
+			panic("c11 msg: composite parameter type")
+		}
+		n.kind, n.sc, n.ar = 'E', []int{p}, [][]int{}
+		cs.nd = append(cs.nd, n)
+		fmt.Fprintf(&req, " E 0 1 %d 0", p)
+		ints = append(ints, i)
+	}
+	// ---- ordinary S nodes over the adapters, the int parameters and each other
+	var strs []int
+	for k, ns := 0, 1+r.Intn(4); k < ns; k++ {
+		i := len(cs.nd)
+		var sc []int
+		var ar [][]int
+		if k == 0 {
+			// the first one consumes everything: up to 4 scalar ports, the rest in an array
+			src := append([]int{}, ints...)
+			r.Shuffle(len(src), func(a, b int) { src[a], src[b] = src[b], src[a] })
+			cut := 1 + r.Intn(4)
+			if cut > len(src) {
+				cut = len(src)
+			}
+			sc = src[:cut]
+			if len(src) > cut || r.Intn(3) == 0 {
+				ar = append(ar, append([]int{}, src[cut:]...))
+			}
+		} else {
+			for q := 1 + r.Intn(3); q > 0; q-- {
+				if r.Intn(6) == 0 {
+					sc = append(sc, -1)
+				} else {
+					sc = append(sc, ints[r.Intn(len(ints))])
+				}
+			}
+			for q := r.Intn(3); q > 0; q-- {
+				a := []int{}
+				for l := r.Intn(4); l > 0; l-- {
+					a = append(a, ints[r.Intn(len(ints))])
+				}
+				ar = append(ar, a)
+			}
+		}
+		lit := make([]c11In, len(sc))
+		for q, s := range sc {
+			if s >= 0 {
+				lit[q] = cs.outOf(s)
+			}
+		}
+		alit := make([][]c11In, len(ar))
+		for q, a := range ar {
+			alit[q] = []c11In{}
+			for _, s := range a {
+				alit[q] = append(alit[q], cs.outOf(s))
+			}
+		}
+		salt := 1 + r.Intn(100000)
+		n := c11NewStruct(i, salt, cs.rec, lit, alit, r.Intn(2) == 0)
+		if ar == nil {
+			ar = [][]int{}
+		}
+		n.salt, n.sc, n.ar = salt, append([]int{}, sc...), ar
+		cs.nd = append(cs.nd, n)
+		fmt.Fprintf(&req, " S %d ", salt)
+		c11Wiring(&req, n.sc, n.ar)
+		ints = append(ints, i)
+		strs = append(strs, i)
+	}
+	N := len(cs.nd)
+	header := strconv.Itoa(N) + req.String()
+
+	// ---- messages
+	got := map[int]bool{} // the parameter has received a message (accepted or not) before
+	newMsg := func(m c11Msg) int {
+		cs.msgs = append(cs.msgs, m)
+		return len(cs.msgs) - 1
+	}
+	shuffled := func(parts []string) string {
+		r.Shuffle(len(parts), func(a, b int) { parts[a], parts[b] = parts[b], parts[a] })
+		return strings.Join(parts, ",")
+	}
+	accepted := func(p int) c11Op {
+		n := cs.nd[p]
+		switch n.kind {
+		case 'Q':
+			v := cs.freshVal()
+			if r.Intn(7) == 0 {
+				v = n.pval
+				c.Note("msg.sp.same-value")
+			}
+			return c11Op{kind: "sp", a: p, b: v}
+		case 'L':
+			k := r.Intn(6)
+			if len(n.cl) > 0 && r.Intn(20) < 7 {
+				k = r.Intn(len(n.cl))
+				c.Note("msg.sl.shorter-than-current")
+			}
+			if k == 0 {
+				c.Note("msg.sl.empty")
+			}
+			l := make([]int, k)
+			parts := make([]string, k)
+			for j := range l {
+				l[j] = cs.freshVal()
+				parts[j] = strconv.Itoa(l[j])
+			}
+			return c11Op{kind: "msg", a: p, b: newMsg(c11Msg{fmt.Sprintf("sl %d %s", p, c11Ints(l)), "[" + strings.Join(parts, ",") + "]",
+				func(n *c11Node) { n.cl, n.pval = l, c11EncList(l) }})}
+		case 'T':
+			fa, fb := r.Intn(5) < 3, r.Intn(5) < 3
+			var v c11AB
+			var parts []string
+			if fa {
+				v.A = cs.freshVal()
+				parts = append(parts, fmt.Sprintf("%q:%d", "A", v.A))
+			}
+			if fb {
+				v.B = cs.freshVal()
+				parts = append(parts, fmt.Sprintf("%q:%d", "B", v.B))
+			}
+			switch {
+			case fa && fb:
+				c.Note("msg.so.both-fields")
+			case !fa && !fb:
+				c.Note("msg.so.empty-object")
+			default:
+				c.Note("msg.so.one-field")
+			}
+			if (!fa && n.cab.A != 0) || (!fb && n.cab.B != 0) {
+				c.Note("msg.so.absent-field-was-nonzero")
+			}
+			b2i := map[bool]int{false: 0, true: 1}
+			return c11Op{kind: "msg", a: p, b: newMsg(c11Msg{fmt.Sprintf("so %d %d %d %d %d", p, b2i[fa], v.A, b2i[fb], v.B), "{" + shuffled(parts) + "}",
+				func(n *c11Node) { n.cab, n.pval = v, c11EncAB(v) }})}
+		default:
+			m := map[string]int{}
+			var cur []int
+			for j := 0; j < 4; j++ {
+				if _, ok := n.cm["k"+strconv.Itoa(j)]; ok {
+					cur = append(cur, j)
+				}
+			}
+			if len(cur) >= 2 && r.Intn(5) < 2 {
+				// a strict, non-empty subset of the keys the map has now
+				r.Shuffle(len(cur), func(a, b int) { cur[a], cur[b] = cur[b], cur[a] })
+				for _, j := range cur[:1+r.Intn(len(cur)-1)] {
+					m["k"+strconv.Itoa(j)] = cs.freshVal()
+				}
+				c.Note("msg.sm.strict-subset-of-current-keys")
+			} else {
+				for j := 0; j < 4; j++ {
+					if r.Intn(2) == 0 {
+						m["k"+strconv.Itoa(j)] = cs.freshVal()
+					}
+				}
+			}
+			dropped := false
+			for _, j := range cur {
+				if _, ok := m["k"+strconv.Itoa(j)]; !ok {
+					dropped = true
+				}
+			}
+			if dropped {
+				c.Note("msg.sm.drops-a-current-key")
+			}
+			if len(m) == 0 {
+				c.Note("msg.sm.empty")
+			}
+			var parts []string
+			for k, v := range m {
+				parts = append(parts, fmt.Sprintf("%q:%d", k, v))
+			}
+			sort.Strings(parts) // map order must not leak into the PRNG-driven shuffle below
+			return c11Op{kind: "msg", a: p, b: newMsg(c11Msg{fmt.Sprintf("sm %d %s", p, c11MapTokens(m)), "{" + shuffled(parts) + "}",
+				func(n *c11Node) { n.cm, n.pval = m, c11EncMap(m) }})}
+		}
+	}
+	bad := func(p int) c11Op {
+		n := cs.nd[p]
+		kind := r.Intn(3)
+		if n.kind == 'Q' {
+			kind = r.Intn(2)
+		}
+		var js string
+		switch kind {
+		case 0:
+			js = []string{"{\"A\":", "[1,2", "{", "[", "12x", "{\"k0\":1,}", "[7,]"}[r.Intn(7)]
+		case 1:
+			if n.kind == 'Q' {
+				js = []string{"\"x\"", "[1]", "{\"A\":1}", "1.5", "true"}[r.Intn(5)]
+			} else if n.kind == 'L' {
+				js = []string{"5", "\"x\"", "{\"A\":1}"}[r.Intn(3)]
+			} else {
+				js = []string{"5", "\"x\"", "[1,2]"}[r.Intn(3)]
+			}
+		default:
+			a, b := cs.freshVal(), cs.freshVal()
+			switch n.kind {
+			case 'L':
+				js = []string{fmt.Sprintf("[%d,\"x\",%d]", a, b), fmt.Sprintf("[%d,%d,\"x\"]", a, b), fmt.Sprintf("[%d,{},%d,%d]", a, b, a)}[r.Intn(3)]
+			case 'T':
+				js = []string{fmt.Sprintf("{\"A\":%d,\"B\":\"x\"}", a), fmt.Sprintf("{\"B\":%d,\"A\":[1]}", b), fmt.Sprintf("{\"A\":%d,\"B\":1.5}", a)}[r.Intn(3)]
+			default:
+				js = []string{fmt.Sprintf("{\"k0\":%d,\"k1\":\"x\"}", a), fmt.Sprintf("{\"k3\":%d,\"k2\":%d,\"k0\":[1]}", a, b), fmt.Sprintf("{\"k1\":%d,\"k2\":null,\"k3\":{}}", a)}[r.Intn(3)]
+			}
+		}
+		c.Note(fmt.Sprintf("msg.sb.kind-%d.%c", kind, n.kind))
+		if !got[p] {
+			c.Note("msg.sb.first-message-ever")
+			if n.pval != map[byte]int{'Q': 0, 'L': 217, 'T': c11EncAB(c11AB{}), 'M': c11EncMap(nil)}[n.kind] {
+				c.Note("msg.sb.first-message-ever.default-not-zero-value")
+			}
+		}
+		return c11Op{kind: "msg", a: p, b: newMsg(c11Msg{fmt.Sprintf("sb %d %d", p, kind), js, nil})}
+	}
+	dependant := func(p int) int { // a node strictly downstream of p, -1 if none
+		var ds []int
+		for _, j := range cs.downstream(p) {
+			if j != p {
+				ds = append(ds, j)
+			}
+		}
+		if len(ds) == 0 {
+			return -1
+		}
+		return ds[r.Intn(len(ds))]
+	}
+
+	var ops []string
+	var ans strings.Builder
+	var forced []c11Op
+	afterBad, afterAccept := false, false // the forced read follows a rejected / an accepted message
+	for M := 6 + r.Intn(25); len(ops) < M || len(forced) > 0; {
+		var o c11Op
+		pick := r.Intn(100)
+		switch {
+		case len(forced) > 0:
+			o = forced[0]
+			forced = forced[1:]
+		case pick < 45:
+			p := params[r.Intn(len(params))]
+			if r.Intn(3) != 0 { // composite parameters more often than int ones
+				p = comps[r.Intn(len(comps))]
+			}
+			isBad := r.Intn(100) < 25
+			if !got[p] {
+				isBad = r.Intn(2) == 0
+			}
+			if isBad {
+				o = bad(p)
+			} else {
+				o = accepted(p)
+			}
+		case pick < 48 && len(strs) > 0:
+			i := strs[r.Intn(len(strs))]
+			n := cs.nd[i]
+			var cand []int
+			for _, s := range ints {
+				if s < i {
+					cand = append(cand, s)
+				}
+			}
+			src := -1
+			if r.Intn(5) != 0 {
+				src = cand[r.Intn(len(cand))]
+			}
+			o = c11Op{"si", i, r.Intn(len(n.sc)), src}
+		case pick < 51 && len(strs) > 0:
+			i := strs[r.Intn(len(strs))]
+			n := cs.nd[i]
+			if len(n.ar) == 0 {
+				continue
+			}
+			k := r.Intn(len(n.ar))
+			if len(n.ar[k]) > 0 && r.Intn(2) == 0 {
+				o = c11Op{"ar", i, k, r.Intn(len(n.ar[k]))}
+			} else if len(n.ar[k]) < 6 {
+				var cand []int
+				for _, s := range ints {
+					if s < i {
+						cand = append(cand, s)
+					}
+				}
+				o = c11Op{"aa", i, k, cand[r.Intn(len(cand))]}
+			} else {
+				continue
+			}
+		default:
+			o = c11Op{kind: "rd", a: r.Intn(N)}
+			if r.Intn(4) != 0 {
+				o.a = ints[r.Intn(len(ints))]
+			}
+		}
+		// state before a message, for the harness's own assertion on rejected messages
+		n := cs.nd[o.a]
+		var before strings.Builder
+		isMsg := o.kind == "msg" || (o.kind == "sp")
+		if isMsg {
+			cs.observe(&before)
+		}
+		txt := ""
+		if o.kind == "msg" {
+			txt = cs.msgs[o.b].txt
+		} else {
+			txt = o.String()
+		}
+		wasBad := o.kind == "msg" && cs.msgs[o.b].accept == nil
+		ok, _ := cs.exec(o, &ans)
+		ops = append(ops, txt)
+		c.Note("msg.op." + strings.Fields(txt)[0])
+		c.Note("msg.status." + cs.lastStatus)
+		switch {
+		case wasBad:
+			var after strings.Builder
+			cs.observe(&after)
+			if cs.lastStatus != "rej" {
+				c.Note("msg.BAD-MESSAGE-NOT-REJECTED")
+			}
+			if after.String() != before.String() {
+				c.Note("msg.REJECTED-MESSAGE-CHANGED-STATE")
+			}
+			if got[o.a] && afterAccept {
+				c.Note("msg.sb.right-after-accepted-message")
+			}
+			got[o.a] = true
+			afterBad, afterAccept = true, false
+			if d := dependant(o.a); d >= 0 && r.Intn(100) < 80 {
+				forced = append(forced, c11Op{kind: "rd", a: d})
+				if r.Intn(3) == 0 {
+					forced = append(forced, c11Op{kind: "rd", a: dependant(o.a)})
+				}
+			}
+		case isMsg && ok:
+			if n.cached() != n.pval {
+				c.Note("msg.ACCEPTED-MESSAGE-VALUE-NOT-AS-DECODED")
+			}
+			if !got[o.a] {
+				c.Note("msg.accepted.first-message-ever")
+			}
+			got[o.a] = true
+			afterBad, afterAccept = false, true
+			switch d := dependant(o.a); {
+			case d < 0:
+			case r.Intn(100) < 35:
+				forced = append(forced, bad(o.a))
+			case r.Intn(100) < 60:
+				forced = append(forced, c11Op{kind: "rd", a: d})
+			}
+		case isMsg:
+			c.Note("msg.GOOD-MESSAGE-NOT-ACCEPTED")
+		case o.kind == "rd" && ok:
+			if want := cs.skipSpec(o.a); cs.lastV1 != want || cs.lastV2 != want {
+				c.Note("msg.FRESHNESS-FAILED")
+			}
+			sc, ar := cs.wiring()
+			below := false
+			for _, p := range params {
+				below = below || (p != o.a && c11Reaches(sc, ar, o.a, p))
+			}
+			switch {
+			case afterBad && below:
+				c.Note("msg.rd-dependant-after-rejected-message")
+			case afterAccept && below:
+				c.Note("msg.rd-dependant-after-accepted-message")
+			}
+			switch cs.nd[o.a].kind {
+			case 'E':
+				c.Note("msg.rd-adapter")
+			case 'S':
+				c.Note("msg.rd-S")
+			case 'Q':
+				c.Note("msg.rd-int-parameter")
+			default:
+				c.Note("msg.rd-composite-parameter")
+			}
+			if len(cs.lastX) > 0 {
+				c.Note("msg.rd.exec-1+")
+			} else {
+				c.Note("msg.rd.exec-0")
+			}
+			afterBad, afterAccept = false, false
+		default:
+			afterBad, afterAccept = false, false
+		}
+	}
+	cs.errNotes()
+	q := header + " " + strconv.Itoa(len(ops)) + " " + strings.Join(ops, " ")
+	a := strings.TrimPrefix(ans.String(), " ")
+	c.Emit("c11.msg.hist", q, a)
+	c.Emit("c11.holds.fresh", q+" @ "+a, "true")
+	c.Emit("c11.holds.no_spurious", q+" @ "+a, "true")
+	c.Emit("c11.holds.version", q+" @ "+a, "true")
 }
 
 const c11SkipRandomN = 300
@@ -1896,6 +2571,14 @@ func runC11(c *Ctx) {
 	c11SkipWitnesses(c)
 	for k := 0; k < c11SkipRandomN; k++ {
 		c11SkipRandom(c)
+	}
+	// message family: ~400 histories in the quick tier (n = 6000), scaled with n
+	nm := c.N / 15
+	if nm < 40 {
+		nm = 40
+	}
+	for k := 0; k < nm; k++ {
+		c11MsgHistory(c)
 	}
 	for k := 0; k < c.N; k++ {
 		c11History(c, k%2 == 0)
